@@ -266,7 +266,17 @@ def run(chk, repo, tier):
     rule_R8(chk, repo)
     from . import support
     support.chain_compiler_rules(chk, repo, 'C07.R7')
-    support.storage_type_rules(chk, repo, 'C07.R9', {'hamiltonian'})
+    # molecular part of hamiltonian.py: everything except the lattice-model constructors of C06 and the private helpers
+    # that only they use
+    import ast as _ast
+    lattice = {'ising_mpo', 'heisenberg_xxz_mpo', 'heisenberg_xxz_spin1_mpo', 'bose_hubbard_mpo', 'fermi_hubbard_mpo',
+               'linear_fermionic_mpo', '_local_opchains_to_mpo'}
+    mol = {q_: f_ for q_, f_ in repo.funcs.items() if f_.module == 'hamiltonian' and f_.name not in lattice and
+           (f_.cls is not None or not f_.name.startswith('_') or 'olecular' in f_.name)}
+    refs = {n_.id for f_ in mol.values() for n_ in _ast.walk(f_.node) if isinstance(n_, _ast.Name)}
+    only = set(mol) | {q_ for q_, f_ in repo.funcs.items() if f_.module == 'hamiltonian' and f_.cls is None and f_.name in refs
+                       and f_.name not in lattice}
+    support.storage_type_rules(chk, repo, 'C07.R9', {'hamiltonian'}, only=only)
     support.graph_table_rules(chk, repo, 'C07.R10', ('OpGraph',))
     chk.undecided += ['operator equality of the optimised and explicit construction', 'unitarity of the gauge matrices',
                       'index ranges of the keys used by the term-insertion functions (only generate_graph / copy_nids are covered by C07.R4)']
